@@ -214,8 +214,11 @@ def build_db(feats, parent=None, anon=False):
     lines = []
     if parent:
         lines.append("\t".join(["chr1", "src", "mRNA", "1", "1000", ".", "+", ".", "ID=%s" % parent]))
-    for f in feats:
-        attrs = ("Name=x" if anon else "ID=%s" % f["id"]) + (";Parent=%s" % parent if parent else "")
+        # an intermediate feature under the parent: every second child hangs under both, so the parent reaches it at level 1
+        # and at level 2 - it is still ONE child
+        lines.append("\t".join(["chr1", "src", "part", "1", "1000", ".", "+", ".", "ID=%s.mid;Parent=%s" % (parent, parent)]))
+    for n, f in enumerate(feats):
+        attrs = ("Name=x" if anon else "ID=%s" % f["id"]) + (";Parent=%s" % (parent if n % 2 else "%s.mid,%s" % (parent, parent)) if parent else "")
         lines.append("\t".join([f["seqid"], f["source"], f["type"], str(f["s"]), str(f["e"]), ".", f["strand"], f["frame"], attrs]))
     return gffutils.create_db("\n".join(lines) + "\n", ":memory:", from_string=True)
 
